@@ -90,8 +90,10 @@ DestViolMem(e) ==
    full = TRUE: the "Z" class (all dmax elements zero in the null-slack build)
    full = FALSE: the "z" class (first element zero, others original or zero) *)
 ClearedMem(e, full) ==
-  Tmpl(e.pre, [i \in Rng(e.d, e.dmax) |->
+  LET ext == IF e.dbos # UNK /\ e.dbos > e.dmax THEN e.dbos ELSE e.dmax   \* a larger known object may be cleared as a whole
+  IN Tmpl(e.pre, [i \in Rng(e.d, ext) |->
         IF i = e.d THEN Ex(0, {"C04"})
+        ELSE IF i >= e.d + e.dmax THEN OZ({})
         ELSE IF e.slack = 1 THEN (IF full THEN Ex(0, {"C04"}) ELSE OZ({"C04"}))
         ELSE AnyC])
 =============================================================================
